@@ -14,7 +14,7 @@ from core import impl as I
 from core.common import close
 
 ID = "C02"
-LEAN_MODULES = ["AcnProofs.C02"]
+LEAN_MODULES = ["AcnProofs.C02", "AcnProofs.C02Json"]
 TIE_MODULES = ["AcnProofs.Lemmas.CodeTieBattery"]
 DRIVER = "drv_C02"          # the shared `Acn.Sim` model + the spec sums of the theorems evaluated on the model (+ two-run chain)
 REQUIRED_THEOREMS = [
@@ -25,6 +25,15 @@ REQUIRED_THEOREMS = [
     "Acn.C02.session_energy_interval", "Acn.C02.session_energy_interval_complete", "Acn.C02.rates_zero_outside_interval", "Acn.C02.exec_sums_eq_spec", "Acn.C02.sim_rate_le_pilot",
     "Acn.C02.rerun_session_energy", "Acn.C02.run_keeps_sessions", "Acn.C02.rerun_session_energy_interval_of_sessions",
     "Acn.C02.rerun_session_energy_interval",
+    # interrupted and resumed simulations (in place: C02.lean; through JSON: C02Json.lean)
+    "Acn.C02.ledger_invariant_aborted", "Acn.C02.ledger_invariant_resume", "Acn.C02.ledger_invariant_resumed",
+    "Acn.C02.ledger_invariant_resume_crash", "Acn.C02.sim_energy_eq_battery_gain_resumed",
+    "Acn.C02.session_energy_eq_sum_resumed", "Acn.C02.rate_zero_when_vacant_resumed", "Acn.C02.peak_eq_max_resumed",
+    "Acn.C02.total_energy_eq_integral_resumed", "Acn.C02.session_energy_interval_resumed",
+    "Acn.C02.session_energy_interval_complete_resumed", "Acn.C02.rates_zero_outside_interval_resumed",
+    "Acn.C02Json.crash_state_json_roundtrip", "Acn.C02Json.loaded_is_resumed", "Acn.C02Json.ledger_invariant_resume_json",
+    "Acn.C02Json.ledger_invariant_resume_json_crash", "Acn.C02Json.resumed_calls", "Acn.C02Json.calls_json_roundtrip",
+    "Acn.C02Json.resumedJ_resumed", "Acn.C02Json.resumedJ_json_exists", "Acn.C02Json.ledger_invariant_resumed_json",
 ]
 BUDGET = {"quick": 900, "thorough": 6000, "search": 6000}
 TRUSTED = ["numpy: zeros / column assignment / sum(axis=0) / dot as used by simulator.py and analysis.py",
@@ -37,6 +46,16 @@ ASSUMPTIONS = ["the theorems and the model cover the plain ChargingNetwork; for 
                "not proved: lean/AcnModel/StochasticLoop.lean (C19) has the loop without energies",
                "station ids pairwise distinct (StationsNodup); the run has not raised (a raise inside update_pilots "
                "leaves earlier stations charged but nothing recorded — outside the property, covered by the correspondence)",
+               "interrupted and resumed simulations: the interruption is a raise out of _process_event, scheduler.run() or "
+               "_update_schedules (Ledger.ApplyErr excludes a raise out of update_pilots / _store_actual_charging_rates: there the "
+               "ledger really is broken, C02.lean has the counterexample); any number of interruptions, any scheduler at each "
+               "resumed call (Ledger.Resumed); through JSON: Valid scenario, to_json / from_json (model: Registry.dump / load + "
+               "RegistrySim.encode / decode of C09, any lawful scalar codec) at ANY point, any number of times (C02Json.ResumedJ) — "
+               "C02Json.lean, a module of its own because Lemmas/ResumeRun (C09) and Lemmas/EventCoreSim (C01/C02) declare the "
+               "same lemma names and cannot be imported together: C02Json proves that JSON steps add no new states "
+               "(resumedJ_resumed: every ResumedJ state is a `Ledger.Resumed` state) and states the occupancy-snapshot clauses for "
+               "them; the arrival <= t < departure form (session_energy_interval_resumed, ..._complete_resumed) is proved in "
+               "C02.lean for every `Resumed` state",
                "occupancy is what the network shows at post_charging_update (the model's occLog); under C01's Valid this is "
                "arrival <= t < departure, which the oracle uses directly",
                "'station voltage' and 'period' are the values the station was REGISTERED with / the simulator was constructed with "
@@ -68,6 +87,18 @@ RULE = ("whole simulations through core.simcase: 1-6 stations of mixed EVSE clas
         "every third with a vandal scheduler); "
         "a stochastic-network stream (real contrib StochasticNetwork, early_departure on/off, more simultaneous sessions than "
         "stations, small requests, seeded `random`; ORACLE ONLY, rows attributed to sessions by the occupancy at update_pilots); "
+        "an INTERRUPTED-AND-RESUMED stream (every 15th slot: one scenario -> 2-4 cases; modelled scripted scenarios and ~10 % real "
+        "algorithms, ~20 % exact): stations registered in NON-alphabetical id order (WEST-2 before EAST-1, S10 before S2, mixed "
+        "case, descending, PS-9 before PS-10) at pairwise different voltages (exact: 1000*2^k), both battery classes, noise, "
+        "multi-period schedules, vandal scheduler on ~45 %; the scheduler raises once in period k — a period with an arrival, with a "
+        "departure, with both (back-to-back reuse), the LAST period (final unplug), a period without events — and the simulation is "
+        "completed by run() again on the same object (core.simcase.run_impl_resume) or by to_json / from_json / update_scheduler "
+        "/ run (run_impl_resume_json); a third of the scenarios add a run interrupted TWICE (each resumed either way); the final "
+        "simulator object (after JSON: the LOADED one — its ev_history, network, matrices, peak) is judged by the same oracle, per "
+        "station id against the voltages the case registered; every aborted state is judged too (energies = rows up to the crash "
+        "period, battery gains, nothing recorded from the crash period on, peak); the aborted state(s) and the final state are compared with the "
+        "model (drv_C02 'resume' chain, ledger sums evaluated on the model's final state); thorough adds every period 0..last as "
+        "crash point, both ways, on every 25th valid small-scope layout; "
         "plus an exact stream (V=1000, period=60, dyadic pilots and batteries) checked with ZERO slack; "
         "non-trivial = run completed, >= 2 sessions received energy and some station was reused or addressed while vacant; "
         "distinct by hash of the case")
@@ -154,6 +185,7 @@ def corpus():
                     "recomputes": [], "period": period, "max_recompute": 1, "noise": [],
                     "sched": {"type": "scripted", "default": [["S0", [16.0]], ["S1", [32.0]]], "script": []}})
     out.extend(_exact_cases_fixed())
+    out.extend(_resume_cases_fixed())
     return out
 
 
@@ -165,6 +197,30 @@ def _exact_cases_fixed():
                 "recomputes": [], "period": 60, "max_recompute": 1, "noise": [],
                 "sched": {"type": "scripted", "default": [["S0", [6.0]], ["S1", [4.0]]],
                           "script": [{"t": 2, "sched": [["S0", [0.5, 12.0]], ["S1", [16.0, 0.25]]]}]}})
+    return out
+
+
+def _resume_cases_fixed():
+    """the Lean example of C02Json.lean (WEST-2 at 240 V registered before EAST-1 at 120 V, back-to-back reuse of WEST-2,
+    the aggregate peak of 35 A before the last period) interrupted in the event period 2, in the last period 3 and in
+    period 1 — in place and through JSON —, and interrupted twice; and the same layout with noisy two-stage batteries"""
+    def base(two):
+        bx = _b2(40.0, 5.0, 6.0, 0.5, 0.8, "continuous") if two else _bi(40.0, 5.0, 6.0)
+        bz = _b2(20.0, 2.0, 6.0, 1.0, 0.5, "stepwise") if two else _bi(20.0, 2.0, 6.0)
+        return {"stations": [{"id": "WEST-2", "kind": {"t": "cont", "min": 0, "max": 32}, "V": 240, "phase": 0},
+                             {"id": "EAST-1", "kind": {"t": "cont", "min": 0, "max": 32}, "V": 120, "phase": 0}],
+                "constraint": None,
+                "sessions": [_s("x", "WEST-2", 0, 2, 3.0, bx), _s("y", "WEST-2", 2, 3, 9.0, _bi(10.0, 8.0, 6.0)),
+                             _s("z", "EAST-1", 1, 3, 5.0, bz)],
+                "recomputes": [], "period": 60, "max_recompute": 1, "noise": [0.5, -0.25] if two else [],
+                "sched": {"type": "scripted", "default": [["WEST-2", [25.0]], ["EAST-1", [10.0]]], "script": []}}
+    out = []
+    for two in (False, True):
+        for crashes in ([{"k": 2, "via": "json"}], [{"k": 2, "via": "run"}], [{"k": 3, "via": "json"}], [{"k": 1, "via": "json"}],
+                        [{"k": 1, "via": "json"}, {"k": 2, "via": "run"}], [{"k": 0, "via": "run"}, {"k": 3, "via": "json"}]):
+            c = base(two)
+            c["resume"] = {"crashes": crashes}
+            out.append(c)
     return out
 
 
@@ -329,6 +385,121 @@ def gen_rerun(rng, case):
     return {"sched": {"type": "scripted", "default": [], "script": [copy.deepcopy(e) for e in sc.get("script", []) if e["t"] >= t0]}}
 
 
+# ---- interrupted and resumed simulations
+
+
+# registration order is NOT the sorted order of the ids (nor of their lower-cased forms): anything that re-sorts the
+# stations of a network (a dict rebuilt from sorted keys, JSON written with sort_keys) puts another station's voltage /
+# row under an id
+ID_SCHEMES = [
+    ["WEST-2", "EAST-1", "NORTH-3", "CENTRAL-0", "SOUTH-9", "ANNEX-4"],
+    ["S10", "S2", "S1", "S21", "S3", "S12"],
+    ["b2", "B1", "a3", "A0", "c1", "C5"],
+    ["Z-1", "Y-2", "X-3", "W-4", "V-5", "U-6"],
+    ["PS-9", "PS-10", "PS-8", "PS-11", "PS-1", "PS-20"],
+]
+
+
+def _rename_stations(case, names):
+    """everything keyed by station id (sessions, schedules) follows the new ids; list order = registration order"""
+    m = {st["id"]: names[i] for i, st in enumerate(case["stations"])}
+    for st in case["stations"]:
+        st["id"] = m[st["id"]]
+    for x in case["sessions"]:
+        x["station"] = m.get(x["station"], x["station"])
+    sc = case.get("sched") or {}
+    if "default" in sc:
+        sc["default"] = [[m.get(k, k), v] for k, v in sc["default"]]
+    for e in sc.get("script", []):
+        if "sched" in e:
+            e["sched"] = [[m.get(k, k), v] for k, v in e["sched"]]
+    return case
+
+
+def _distinct_voltages(rng, case):
+    """every station at its own voltage (exact scenarios: 1000 * 2^k, so that the arithmetic stays exact)"""
+    volts = [1000, 2000, 500, 4000, 250, 8000] if case.get("exact") else [208, 240, 120, 277.5, 400, 230]
+    off = rng.randrange(len(volts))
+    for i, st in enumerate(case["stations"]):
+        st["V"] = volts[(i + off) % len(volts)]
+    return case
+
+
+def gen_resume(rng):
+    """One scenario (valid layout, >= 1 session, stations registered in non-alphabetical id order at pairwise different
+    voltages) with several crash points: the scheduler raises once in period k — a period with an arrival, one with a
+    departure, the LAST period (the final unplug), a period without events — and the simulation is completed EITHER by
+    calling run() again on the same object OR through to_json / from_json / update_scheduler / run.  A third of the
+    scenarios add a run that is interrupted TWICE (each interruption resumed in place or through JSON)."""
+    for _ in range(20):
+        r = rng.random()
+        if r < 0.2:
+            c = gen_exact(rng)
+        elif r < 0.3:
+            c = S.gen_case(rng, real_algos=True, max_sessions=10)
+        else:
+            c = gen_ledger(rng)
+        if c["sessions"] and len(c["sessions"]) <= 14 and (len(c["stations"]) >= 2 or rng.random() < 0.15):
+            break
+    _rename_stations(c, rng.choice(ID_SCHEMES))
+    _distinct_voltages(rng, c)
+    if not c.get("exact") and rng.random() < 0.2:
+        c["period"] = rng.choice(ODD_PERIODS)
+    arr = sorted({x["arrival"] for x in c["sessions"]})
+    dep = sorted({x["departure"] for x in c["sessions"]})
+    last = dep[-1]
+    cand = [rng.choice(arr), rng.choice(dep), last]
+    both = [t for t in arr if t in dep]
+    if both:
+        cand.append(rng.choice(both))           # a departure and an arrival in the crash period (back-to-back reuse)
+    quiet = [t for t in range(arr[0], last) if t not in arr and t not in dep]
+    if quiet:
+        cand.append(rng.choice(quiet))          # no event: the scheduler runs there only with max_recompute / a resolve
+    ks = []
+    for k in cand:
+        if k not in ks:
+            ks.append(k)
+    rng.shuffle(ks)
+    out = []
+    for k in ks[:3]:
+        d = copy.deepcopy(c)
+        d["resume"] = {"crashes": [{"k": k, "via": "json" if rng.random() < 0.6 else "run"}]}
+        out.append(d)
+    ev = sorted(set(arr + dep))
+    if len(ev) >= 2 and rng.random() < 0.35:
+        k1, k2 = sorted(rng.sample(ev, 2))
+        d = copy.deepcopy(c)
+        d["resume"] = {"crashes": [{"k": k1, "via": rng.choice(["json", "run"])}, {"k": k2, "via": rng.choice(["json", "run"])}]}
+        out.append(d)
+    for d in out:
+        if rng.random() < 0.45:
+            d["vandal"] = gen_vandal(rng)
+    return out
+
+
+def resume_sweep():
+    """thorough tier: for every 25th valid small-scope layout (>= 1 session) and the fixed scenarios, EVERY period 0..last as the
+    crash point, in place and through JSON; stations renamed WEST-2 / EAST-1 at 240 V / 120 V"""
+    out = []
+    base = [c for c in exhaustive() if c["sessions"] and S.is_valid_layout(c)][::25]
+    for j, c in enumerate(base):
+        c = copy.deepcopy(c)
+        c.pop("exhaustive", None)
+        _rename_stations(c, ID_SCHEMES[j % len(ID_SCHEMES)])
+        c["stations"][0]["V"], c["stations"][1]["V"] = 240, 120
+        last = max(x["departure"] for x in c["sessions"])
+        if not S.is_valid_layout(c):
+            continue
+        for k in range(0, last + 1):
+            for via in ("json", "run"):
+                d = copy.deepcopy(c)
+                d["resume"] = {"crashes": [{"k": k, "via": via}]}
+                if (j + k) % 4 == 0:
+                    d["vandal"] = {"style": VANDAL_STYLES[(j + k) % len(VANDAL_STYLES)], "when": "both", "keep": bool(k % 2)}
+                out.append(d)
+    return out
+
+
 def _decorate(rng, c):
     """vandal scheduler on ~45 % of all scenarios (every stream), EV re-use on ~20 % of the plain scripted ones"""
     if rng.random() < 0.45:
@@ -349,7 +520,12 @@ def generate(rng, n, tier):
             if k % 3 == 0:
                 c["vandal"] = {"style": VANDAL_STYLES[(k // 3) % len(VANDAL_STYLES)], "when": ["before", "after", "both"][(k // 18) % 3],
                                "keep": bool((k // 3) % 2)}
+    if tier == "thorough":
+        out.extend(resume_sweep())
     for i in range(n):
+        if i % 15 == 14:
+            out.extend(gen_resume(rng))         # one scenario, several crash points (2-4 cases)
+            continue
         r = i % 12
         if r in (0, 1):
             c = gen_exact(rng)
@@ -655,7 +831,73 @@ def _differs(a, b):
     return not (a == b or (a != a and b != b))
 
 
+def _resume_chain(case, hooks, crashes, keep):
+    """run(); every time it raises SchedulerFailed the simulation is continued — by run() on the same object, or
+    through to_json / from_json / update_scheduler / run — as the n-th entry of `crashes` (ascending k) says.  Built
+    from the primitives of core.simcase (`run_impl_resume`, `run_impl_resume_json` are the one-crash instances)."""
+    from acnportal.acnsim import Simulator as _Sim
+    vias = [c["via"] for c in sorted(crashes, key=lambda c: c["k"])]
+    use_json = "json" in vias
+    if use_json:
+        hooks.network_cls = S.JsonLogNetwork
+        del S._JSON_OCC[:]
+    with S.noise_stream(case.get("noise", [])) as ns:
+        sim, ctx = S.build_sim(case, hooks)
+        aborted = []
+        missing = []
+        err = S.run_sim(sim)
+        n = 0
+        while err == "SchedulerFailed" and n < len(vias):
+            o = S.observe(sim, ctx, err)
+            if use_json:
+                o["occ"] = [list(r) for r in S._JSON_OCC]
+            aborted.append(o)
+            if vias[n] == "json":
+                with warnings.catch_warnings():
+                    warnings.simplefilter("ignore")
+                    sim2 = _Sim.from_json(sim.to_json())
+                    sim2.update_scheduler(ctx["scheduler"])
+                by = S._all_evs_of(sim2)
+                ctx = {"network": sim2.network, "scheduler": ctx["scheduler"], "hooks": hooks,
+                       "evs": [by[x["session"]] for x in case["sessions"] if x["session"] in by]}
+                missing = [x["session"] for x in case["sessions"] if x["session"] not in by]
+                sim = sim2
+            err = S.run_sim(sim)
+            n += 1
+        obs = S.observe(sim, ctx, err)
+        if use_json:
+            obs["occ"] = [list(r) for r in S._JSON_OCC]
+        if aborted:
+            obs["first"] = aborted[0]
+            obs["aborted"] = aborted
+        obs["missing_evs"] = missing
+        obs["noise_draws"] = ns["k"]
+    keep["sim"], keep["ctx"] = sim, ctx
+    return obs
+
+
+def _run_resumed(case):
+    crashes = case["resume"]["crashes"]
+    hooks = _vandal_hooks(case)
+    hooks.fail_at = {int(c["k"]) for c in crashes}
+    keep = {}
+    if len(crashes) == 1 and crashes[0]["via"] == "json":
+        obs = S.run_impl_resume_json(case, hooks, keep=keep)
+    elif len(crashes) == 1:
+        obs = S.run_impl_resume(case, hooks, keep=keep)
+    else:
+        obs = _resume_chain(case, hooks, crashes, keep)
+    if "first" in obs and "aborted" not in obs:
+        obs["aborted"] = [obs["first"]]
+    # the completed simulation is judged like any other: the ledger's observables of the FINAL simulator object (after a
+    # JSON resume: the loaded one — its ev_history, its network, its matrices)
+    _ledger_obs(keep["sim"], obs, False)
+    return obs
+
+
 def run_impl(case):
+    if case.get("resume"):
+        return _run_resumed(case)
     stoch = case.get("network") == "stochastic"
     hooks = _vandal_hooks(case, _stoch_cls(bool(case.get("early_departure"))) if stoch else None)
     with S.noise_stream(case.get("noise", [])) as ns:
@@ -694,6 +936,16 @@ def run_impl(case):
 def model_request(case):
     if case.get("network") == "stochastic":
         return None             # oracle only: the Sim model composes the run loop with a plain ChargingNetwork
+    if case.get("resume"):
+        # the scheduler raises once in each crash period; run() is called again from the state it left.  The in-place and
+        # the JSON resume are compared with the SAME model run (C09 / C02Json.crash_state_json_roundtrip: the round trip
+        # is the identity on the state).  n-th resumed call: the script that still fails in the later crash periods.
+        ks = sorted(int(c["k"]) for c in case["resume"]["crashes"])
+        req = S.model_request(case, fail_at=ks, resume=True)
+        if req is not None:
+            chain = [S.model_request(case, fail_at=ks[j:])["sched"] for j in range(1, len(ks))]
+            req["resume"] = chain + [req["resume"]]
+        return req
     req = S.model_request(case)
     if req is not None and case.get("rerun"):
         # two simulations over the same EV objects: the driver runs the first, applies the model of EV.reset()
@@ -707,6 +959,18 @@ def compare(case, obs, model):
     if ("run1" in obs) != ("run1" in model):
         return ["two runs over the same EV objects: only one side completed the first run "
                 f"(impl err {obs.get('run1', obs).get('err')!r}, model err {model.get('run1', model).get('err')!r})"]
+    if case.get("resume"):
+        diffs = _compare_run(case, obs, model)
+        ao, am = obs.get("aborted", []), model.get("aborted", [])
+        if len(ao) != len(am):
+            diffs.append(f"resume: the implementation was interrupted {len(ao)} time(s) (periods {[o['iter'] for o in ao]}), "
+                         f"the model {len(am)} time(s) (periods {[m['iter'] for m in am]})")
+        else:
+            for j, (o, m) in enumerate(zip(ao, am)):
+                if j == 0:
+                    continue                    # the first interruption is compared by S.compare ("first")
+                S.compare_state(case, o, S.decode_model(m), diffs, tag=f"interrupted run {j + 1}: ")
+        return diffs[:12]
     if "run1" in obs:
         d1 = ["run 1: " + d for d in _compare_run(case, obs["run1"], model["run1"])]
         d2 = ["run 2 (same EV objects after EV.reset()): " + d
@@ -753,8 +1017,53 @@ def _eq(a, b, exact):
     return a == b if exact else close(a, b)
 
 
+def _oracle_aborted(case, ab, tag):
+    """the ledger at the moment run() raised (theorem ledger_invariant_aborted): `_iteration` = t, the periods < t are
+    recorded, period t and everything after it is not, no EV has charged for period t.  From the canonical observation of
+    the aborted simulator; rows in registration order, voltages as registered."""
+    if ab.get("err") != "SchedulerFailed" or not S.is_valid_layout(case):
+        return []
+    exact = bool(case.get("exact"))
+    fails = []
+    T = float(I.num(case["period"]))
+    sts = [st["id"] for st in case["stations"]]
+    V = [float(I.num(st["V"])) for st in case["stations"]]
+    rates, t = ab["rates"], ab["iter"]
+    width = len(rates[0]) if rates else 0
+    by = {e["session"]: e for e in ab["evs"]}
+    for x in case["sessions"]:
+        e = by.get(x["session"])
+        if e is None or x["station"] not in sts:
+            continue
+        i = sts.index(x["station"])
+        acc = 0.0
+        for u in range(max(x["arrival"], 0), min(x["departure"], t, width)):
+            acc += (rates[i][u] * V[i]) / 1000 * (T / 60)
+        if not _eq(acc, e["delivered"], exact):
+            fails.append({"kind": "session_energy_at_interruption", "detail": f"{tag}session {x['session']}: sum over "
+                          f"[{x['arrival']},min({x['departure']},{t})) of rates[{x['station']}]*V/1000*period/60 = {acc!r}, "
+                          f"energy_delivered = {e['delivered']!r}"})
+        gain = e["charge"] - float(I.num(x["batt"]["init"]))
+        if not _eq(gain, e["delivered"], exact):
+            fails.append({"kind": "battery_gain_at_interruption", "detail": f"{tag}session {x['session']}: battery gain {gain!r} "
+                          f"but energy_delivered = {e['delivered']!r}"})
+    for i in range(len(rates)):
+        if any(r != 0 for r in rates[i][t:]):
+            fails.append({"kind": "rate_recorded_for_unsimulated_period", "detail": f"{tag}charging_rates[{sts[i] if i < len(sts) else i}]"
+                          f"[{t}:] = {rates[i][t:]} although run() raised in period {t}"})
+            break
+    agg = [sum(rates[i][u] for i in range(len(rates))) for u in range(min(t, width))]
+    if not _eq(max([0.0] + agg), ab["peak"], exact):
+        fails.append({"kind": "peak_at_interruption", "detail": f"{tag}sim.peak = {ab['peak']!r}, max aggregate recorded current = {max([0.0] + agg)!r}"})
+    return fails
+
+
 def oracle(case, obs):
     fails = []
+    if case.get("resume"):
+        for j, ab in enumerate(obs.get("aborted", [])):
+            fails.extend(_oracle_aborted(case, ab, f"interruption {j + 1} (period {ab.get('iter')}): "))
+        return fails + _oracle_run(case, obs)
     if "run1" in obs:
         for f in _oracle_run(case, obs["run1"]):
             fails.append({"kind": f["kind"], "detail": "run 1: " + f["detail"]})
@@ -939,7 +1248,7 @@ def features(case, obs):
     f = [f"stations={len(case['stations'])}",
          "sessions=" + ("0" if n == 0 else "1-3" if n <= 3 else "4-8" if n <= 8 else "9-25"),
          f"sched={case['sched']['type']}", f"period={case['period']}", f"err={obs.get('err')}",
-         "stream=" + ("stochastic" if case.get("network") == "stochastic" else "exact" if case.get("exact") else "malformed" if case.get("malformed") else "structured"),
+         "stream=" + ("resume" if case.get("resume") else "stochastic" if case.get("network") == "stochastic" else "exact" if case.get("exact") else "malformed" if case.get("malformed") else "structured"),
          "charged_sessions=" + ("0" if _charged(obs) == 0 else "1" if _charged(obs) == 1 else "2-4" if _charged(obs) <= 4 else "5+"),
          "back_to_back=" + ("0" if _b2b(case) == 0 else "1+")]
     if case.get("exhaustive"):
@@ -952,6 +1261,33 @@ def features(case, obs):
         f.append("vandal_invocations=" + ("0" if n_inv == 0 else "1" if n_inv == 1 else "2-5" if n_inv <= 5 else "6+"))
         if obs.get("err") is None and len(set(obs.get("voltages", []))) > 1 and _charged_after_invocation(obs):
             f.append("vandal_then_charging_at_heterogeneous_voltages")
+    if case.get("resume"):
+        cr = sorted(case["resume"]["crashes"], key=lambda c: c["k"])
+        ab = obs.get("aborted", [])
+        f.append(f"resume:crash_points={len(cr)}/fired={len(ab)}")
+        arr = {x["arrival"] for x in case["sessions"]}
+        dep = {x["departure"] for x in case["sessions"]}
+        last = max(dep) if dep else 0
+        for c_, o in zip(cr, ab):
+            k = o["iter"]
+            f.append("resume:via=" + ("to_json/from_json" if c_["via"] == "json" else "run()_again"))
+            f.append("resume:crash_period=" + ("last" if k == last else "arrival+departure" if (k in arr and k in dep) else
+                                               "arrival" if k in arr else "departure" if k in dep else "no_event"))
+            if any(x is not None for x in o.get("occ_final", [])):
+                f.append("resume:ev_connected_at_crash")
+        ids = [st["id"] for st in case["stations"]]
+        if ids != sorted(ids):
+            f.append("resume:registration_order_not_sorted")
+        if ab and obs.get("err") is None:
+            t = ab[0]["iter"]
+            rates = obs.get("rates", [])
+            agg = [sum(r[u] for r in rates) for u in range(len(rates[0]) if rates else 0)]
+            if agg and max(agg[:t] + [0.0]) > max(agg[t:] + [0.0]):
+                f.append("resume:peak_reached_before_the_interruption")
+            if any(r[u] != 0 for r in rates for u in range(t, len(r))):
+                f.append("resume:charging_after_the_interruption")
+            if obs.get("missing_evs"):
+                f.append("resume:evs_not_found_after_load")
     if case.get("rerun"):
         f.append("ev_objects_reused_after_reset" + ("" if "run1" in obs else "/run1_raised"))
         if "run1" in obs and _stale_rate_then_zero_pilot(case, obs):
